@@ -81,4 +81,14 @@ PROPS = {
         "assumptions": ["os.Stat length of the data file is the observable"],
         "parts": [part("TestC18", {"checks": 400, "steps": 70, "timeout": 300}, {"checks": 10000, "steps": 90, "timeout": 1500})],
     },
+    "C08": {
+        "level": "fault_enumeration",
+        "title": "failed commit changes nothing",
+        "technique": "fault injection enumerated over the I/O calls of generated workloads (k-th pwrite/fdatasync/ftruncate/fsync/mmap fails once) with model, independent-decoder and reader-snapshot oracles",
+        "design_ref": "DESIGN.md §3 C08",
+        "text": "For generated workloads every I/O call position (quick: a generated subset incl. all calls of one commit; thorough: all) is failed once through the verif hook; the state in process, on disk and after reopen, the page accounting, the snapshots of readers open across the failure and the behaviour of all following transactions are checked. Fault enumeration per workload, exploration over workloads.",
+        "note": "Faults are single, transient call failures (the property's fault model); flock/munmap/mlock/read failures are not injected. A failed mmap may legitimately leave the handle unusable until reopened.",
+        "assumptions": ["hook call sites cover every write/sync/truncate/mmap of the data file", "refdec", "reference model"],
+        "parts": [part("TestC08", {"checks": 18, "steps": 60, "timeout": 400}, {"checks": 150, "steps": 70, "timeout": 2400})],
+    },
 }
